@@ -2,6 +2,7 @@
 CONSTANT MaxRules = 3
 CONSTANT Sample2 = 3
 CONSTANT Sample3 = 60
+CONSTANT BaseMode = "cleaned"
 SPECIFICATION Spec
 INVARIANT TypeOK
 INVARIANT SetupInv
